@@ -295,6 +295,7 @@ func createVectorImageFunctions(cdata ImageMap) { //nolint:funlen // this is a g
 			img.Vect.MoveTo(float32(x), float32(y))
 			return args[0]
 		},
+		DontCache: true, // like the pixel functions: these change the image, a caller must not be answered from the cache.
 	}
 	MustCreate(imgFn)
 	imgFn.Name = "image.line_to"
